@@ -304,6 +304,49 @@ func c16Positional(maxFull int) *Scenario {
 					}
 				}
 			}
+			// Positional with the decoding options set: AllowArray(false) turns arrays away and nothing else;
+			// unknown names stay errors whatever the options (the names given are the only keys there are)
+			f2b := mkFunc([]reflect.Type{tCtx, reflect.TypeOf(0), reflect.TypeOf(0)}, []reflect.Type{tErr}, rec)
+			for _, opt := range []string{"AllowArray(false)", "AllowArray(true)", "SetStrict(true)", "SetStrict(true)+AllowArray(false)"} {
+				fi, err := handler.Positional(f2b, "first", "second")
+				if err != nil {
+					r.Fail("C16.R1", "Positional(func(ctx,int,int) error, first, second)", "rejected: "+err.Error(), "")
+					break
+				}
+				arrays := true
+				switch opt {
+				case "AllowArray(false)":
+					fi.AllowArray(false)
+					arrays = false
+				case "AllowArray(true)":
+					fi.AllowArray(true)
+				case "SetStrict(true)":
+					fi.SetStrict(true)
+				default:
+					fi.SetStrict(true).AllowArray(false)
+					arrays = false
+				}
+				h := fi.Wrap()
+				for _, c := range []struct {
+					params string
+					ok     bool
+				}{{`[1,2]`, arrays}, {`{"first":1,"second":2}`, true}, {`{"first":1}`, true}, {`{"first":1,"third":3}`, false}, {`{"third":3}`, false}, {`[1]`, false}, {`[1,2,3]`, false}} {
+					rec.calls = 0
+					var herr error
+					pn := guarded(func() { _, herr = h(context.Background(), mkRequest(c.params)) })
+					r.Calls(1)
+					r.Case(fmt.Sprintf("pos/options/%v", c.ok), true)
+					desc := fmt.Sprintf("Positional(first, second).%s params %s", opt, c.params)
+					Hit("C16.R2")
+					if pn != "" {
+						r.Fail("C16.R6", desc, "panic: "+pn, "")
+					} else if c.ok && (herr != nil || rec.calls != 1) {
+						r.Fail("C16.R2", desc, fmt.Sprintf("want one call, got err=%v calls=%d", herr, rec.calls), "")
+					} else if !c.ok && (herr == nil || rec.calls != 0 || jrpc2.ErrorCode(herr) != jrpc2.InvalidParams) {
+						r.Fail("C16.R2", desc, fmt.Sprintf("want InvalidParams without a call, got err=%v calls=%d", herr, rec.calls), "")
+					}
+				}
+			}
 			f0 := mkFunc([]reflect.Type{tCtx}, []reflect.Type{tErr}, rec)
 			if fi, err := handler.Positional(f0); err != nil {
 				r.Fail("C16.R1", "Positional(func(ctx) error)", "rejected: "+err.Error(), "")
@@ -312,6 +355,15 @@ func c16Positional(maxFull int) *Scenario {
 				_, e1 := fi.Wrap()(context.Background(), mkRequest(""))
 				c1 := rec.calls
 				_, e2 := fi.Wrap()(context.Background(), mkRequest("[1]"))
+				for _, ps := range []string{"{}", "[]", `{"a":1}`, "null"} {
+					before := rec.calls
+					_, e3 := fi.Wrap()(context.Background(), mkRequest(ps))
+					// params given to a function that takes none: refused (JSON null counts as no params)
+					if ps != "null" && (e3 == nil || rec.calls != before) {
+						r.Fail("C16.R2", "Positional(func(ctx) error) params "+ps, fmt.Sprintf("want InvalidParams without a call, got err=%v calls=%d", e3, rec.calls-before), "")
+					}
+					rec.calls = before
+				}
 				r.Case("pos/arity0", true)
 				if e1 != nil || c1 != 1 || e2 == nil || rec.calls != 1 {
 					r.Fail("C16.R2", "Positional(func(ctx) error)", fmt.Sprintf("no-params call err=%v calls=%d; with params err=%v calls=%d", e1, c1, e2, rec.calls), "")
@@ -405,6 +457,21 @@ func c16ArgsObj() *Scenario {
 				r.Case("args/nonarray", true)
 				if p != "" || (err == nil && in != "null") {
 					r.Fail("C16.R7", "Args <- "+in, fmt.Sprintf("non-array input accepted (panic %q err %v)", p, err), "")
+				}
+			}
+			// Args: an element of the wrong type is an error, in every position
+			for pos := 0; pos < 3; pos++ {
+				a, b, c := 0, "keep", 0
+				args := handler.Args{&a, &b, &c}
+				elts := []string{"1", `"s"`, "3"}
+				elts[pos] = map[int]string{0: `"x"`, 1: "7", 2: `[1]`}[pos]
+				in := "[" + strings.Join(elts, ",") + "]"
+				err := json.Unmarshal([]byte(in), &args)
+				r.Calls(1)
+				r.Case("args/wrongtype", true)
+				Hit("C16.R7")
+				if err == nil {
+					r.Fail("C16.R7", "Args{&int,&string,&int} <- "+in, fmt.Sprintf("an element of the wrong type was accepted (a=%d b=%q c=%d)", a, b, c), "")
 				}
 			}
 			// Obj: every subset of keys present; absent targets untouched
